@@ -90,18 +90,43 @@ Definition zffi (name : string) (args : list (value Z)) : res (value Z) :=
   else Wrong.
 
 Definition zops0 : ops Z :=
-  {| q_neg := Z.opp; q_fact := zfact; q_arith := zarith; q_cmp := zcmp; q_eqb := Z.eqb;
+  {| q_unit := fun _ => 1%Z; q_neg := Z.opp; q_fact := zfact; q_arith := zarith; q_cmp := zcmp; q_eqb := Z.eqb;
      q_show := show_q;
      fmt_spec := fun _ _ => Err "unmodelled-format-specifier";
      ffi := zffi;
      proc := fun _ _ => Wrong;
      procs := ["print"; "assert"; "assert_eq"] |}.
 
+(* pretty_print.rs escape_numbat_string: print(…) of a non-string value renders nested strings
+   as literals (quotes, braces and backslashes escaped) — unlike Display, used by JoinString *)
+Fixpoint escape_str (s : string) : string :=
+  match s with
+  | EmptyString => EmptyString
+  | String c r =>
+      let n := Ascii.nat_of_ascii c in
+      if (Nat.eqb n 123 || Nat.eqb n 125 || Nat.eqb n 92)%bool then String c (String c (escape_str r))
+      else if Nat.eqb n 34 then String (Ascii.ascii_of_nat 92) (String c (escape_str r))
+      else String c (escape_str r)
+  end.
+
+Fixpoint pretty (v : value Z) : string :=
+  match v with
+  | VStr s => """" ++ escape_str s ++ """"
+  | VStruct n fs vs =>
+      match vs with
+      | [] => n ++ " {}"
+      | _ => n ++ " { " ++ sep_concat ", " (zip_fields fs (map pretty vs)) ++ " }"
+      end
+  | VList l => "[" ++ sep_concat ", " (map pretty l) ++ "]"
+  | _ => display zops0 v
+  end.
+
 Definition zproc (name : string) (args : list (value Z)) : res (list string) :=
   if String.eqb name "print" then
     match args with
     | [] => Ok [""]
-    | [v] => Ok [to_str zops0 v]
+    | [VStr s] => Ok [s]                  (* a string is printed without quotes *)
+    | [v] => Ok [pretty v]
     | _ => Wrong
     end
   else if String.eqb name "assert" then
@@ -118,7 +143,7 @@ Definition zproc (name : string) (args : list (value Z)) : res (list string) :=
   else Wrong.
 
 Definition zops : ops Z :=
-  {| q_neg := Z.opp; q_fact := zfact; q_arith := zarith; q_cmp := zcmp; q_eqb := Z.eqb;
+  {| q_unit := fun _ => 1%Z; q_neg := Z.opp; q_fact := zfact; q_arith := zarith; q_cmp := zcmp; q_eqb := Z.eqb;
      q_show := show_q;
      fmt_spec := fun _ _ => Err "unmodelled-format-specifier";
      ffi := zffi; proc := zproc;
@@ -166,6 +191,7 @@ Definition show_const (c : const Z) : string :=
   | CFunRef (FForeign n) => "F" ++ n
   | CFmt None => "p-"
   | CFmt (Some s) => "p""" ++ s ++ """"
+  | CUnit n => "u" ++ n
   end.
 
 Definition binop_name (op : binop) : string :=
@@ -197,6 +223,7 @@ Definition show_instr (ffi_names : list string) (i : instr) : string :=
   | IBuildStruct s n => "BuildStructInstance " ++ show_nat s ++ " " ++ show_nat n
   | IAccessField k => "AccessStructField " ++ show_nat k
   | IBuildList n => "BuildList " ++ show_nat n
+  | IPrintString k => "PrintString " ++ show_nat k
   | IReturn => "Return"
   | ICompilePanic => "!CompilePanic"
   | IUnmodelled => "!Unmodelled"
